@@ -582,8 +582,14 @@ func redactExternalURL(rawURL string) string {
 	return u.String()
 }
 
-// batchMetadata extracts custom metadata from a record batch.
+// batchMetadata extracts custom metadata from a record batch. The per-batch
+// (message-level) metadata is where the framework's own writers put log
+// levels and pointer locations, and where the IPC reader hands them back;
+// schema-level metadata is only the fallback.
 func batchMetadata(rec arrow.RecordBatch) arrow.Metadata {
+	if rb, ok := rec.(arrow.RecordBatchWithMetadata); ok && rb.Metadata().Len() > 0 {
+		return rb.Metadata()
+	}
 	if rec.Schema().HasMetadata() {
 		return rec.Schema().Metadata()
 	}
